@@ -65,3 +65,46 @@ def allFetches (w : Web) (root : Nat) : List Nat :=
   wsdlFetches w root ++ (buildOrder w root).flatMap (passFetches w)
 
 end Suds.Loader
+
+namespace Suds.Loader
+
+/-! ### the document cache (`reader.DocumentReader.open` / `DefinitionsReader.open`)
+
+A cached entry is written only after the document has been fetched *and* parsed; the WSDL object
+only after the whole construction has returned. -/
+
+/-- what the source answers for one fetch -/
+inductive Outcome where
+  | unreachable                -- the transport raises
+  | illFormed                  -- bytes that do not parse
+  | doc (content : Nat)        -- a well-formed document (content abstracted to a number)
+  deriving Repr, DecidableEq
+
+abbrev DocCache := List (Nat × Nat)      -- url ↦ parsed content
+
+def cacheGet (c : DocCache) (u : Nat) : Option Nat := (c.find? (·.1 == u)).map (·.2)
+
+/-- `DocumentReader.open(url)` with cachingpolicy 0: (the document or failure, the cache afterwards) -/
+def openDoc (c : DocCache) (u : Nat) (src : Nat → Outcome) : Option Nat × DocCache :=
+  match cacheGet c u with
+  | some d => (some d, c)
+  | none =>
+    match src u with
+    | .doc d => (some d, c ++ [(u, d)])
+    | _ => (none, c)
+
+/-- a load opens documents one after the other and stops at the first failure -/
+def openAll (c : DocCache) (src : Nat → Outcome) : List Nat → Option (List Nat) × DocCache
+  | [] => (some [], c)
+  | u :: rest =>
+    match openDoc c u src with
+    | (none, c') => (none, c')
+    | (some d, c') =>
+      match openAll c' src rest with
+      | (none, c'') => (none, c'')
+      | (some ds, c'') => (some (d :: ds), c'')
+
+/-- every entry is a faithful copy of what the source holds -/
+def Faithful (c : DocCache) (src : Nat → Outcome) : Prop := ∀ u d, (u, d) ∈ c → src u = .doc d
+
+end Suds.Loader
